@@ -137,6 +137,18 @@ func c05Gen(g *core.Gen) {
 			g.Emit(&c05Case{Sizes: []int{65536*n - 3}, Names: []string{"big"}, Slice: 65536, Blocks: 2, G: gg})
 		}
 	}
+	// slice size x recovery-block count: the whole grid up to 9 MiB of recovery data (any grouping of the recovery blocks by
+	// size - cache blocking, batching of writes - sits on a product of the two, not on either alone)
+	for _, s := range []int{1024, 4096, 16384, 65536, 262144} {
+		for _, p := range []int{9, 16, 17, 33, 64, 65, 129, 257, 300, 1025} {
+			if s*p > 9<<20 {
+				continue
+			}
+			for _, gg := range []int{1, 3} {
+				g.Emit(&c05Case{Sizes: []int{s + 5, s - 1}, Names: []string{"u", "v/w"}, Slice: s, Blocks: p, G: gg})
+			}
+		}
+	}
 	// look-alike inputs: equal length, identical first 16 KiB, different tails (2 and 3 files, listed in both orders by the reversal in Run)
 	for _, nf := range []int{2, 3} {
 		for _, gg := range []int{1, 3} {
